@@ -29,6 +29,7 @@ var registry = map[string]*propDef{}
 func register(id, level string, f propFunc) { registry[id] = &propDef{id, level, f} }
 
 var specDir string
+var selftestFile string
 
 func main() {
 	var (
@@ -39,6 +40,7 @@ func main() {
 		evidence = flag.String("evidence", "", "evidence file to write (default <verif>/evidence/<prop>.json)")
 		replay   = flag.String("replay", "", "re-evaluate the single obligation stored in this replay file")
 		list     = flag.Bool("list", false, "list obligations on stdout")
+		selftest = flag.String("selftest", "", "JSON file with the result of tools/selftest.sh, recorded in the evidence")
 		anchors  = flag.Bool("dump-anchors", false, "write spec/anchors.json (function fingerprints of the tree) and exit")
 	)
 	flag.Parse()
@@ -87,6 +89,7 @@ func main() {
 		if ev == "" || len(ids) > 1 {
 			ev = filepath.Join(*verif, "evidence", id+".json")
 		}
+		selftestFile = *selftest
 		code := runProp(def, *repo, *verif, *tier, ev, seed, known, *list)
 		if code > exit {
 			exit = code
@@ -137,6 +140,14 @@ func runProp(def *propDef, repo, verif, tier, evPath string, seed int64, known [
 		def.run(c, r)
 	}
 	r.finish()
+	if selftestFile != "" {
+		if b, err := os.ReadFile(selftestFile); err == nil {
+			var st map[string]any
+			if json.Unmarshal(b, &st) == nil {
+				r.Extra["selftest"] = st
+			}
+		}
+	}
 	out := r.classify(known)
 	cmd := fmt.Sprintf("bin/bclverif -repo %s -prop %s -tier %s", repo, def.id, tier)
 	replays, err := r.writeEvidence(evPath, verif, tier, seed, time.Since(start).Seconds(), out, cmd)
